@@ -46,7 +46,10 @@ def coords(draw, n, spacing=2.2, jitter=0.4, grid=4):
     sites = draw(st.lists(st.integers(0, grid ** 3 - 1), min_size=n, max_size=n, unique=True))
     out = []
     for s in sites:
-        ix, iy, iz = s % grid, (s // grid) % grid, s // (grid * grid)
+        # scatter consecutive site numbers over the lattice, so that the sites a shrunk example ends up with
+        # (0, 1, 2, 3...) are neither collinear nor coplanar
+        sp = (s * 29) % (grid ** 3) if grid == 4 else s
+        ix, iy, iz = sp % grid, (sp // grid) % grid, sp // (grid * grid)
         g = _generic(s, 0.35)
         j = [draw(fl(-jitter, jitter)) + g[i] for i in range(3)]
         out.append([rnd(ix * spacing + j[0]), rnd(iy * spacing + j[1]), rnd(iz * spacing + j[2])])
